@@ -168,7 +168,10 @@ StreamRuns(e, k) ==
          IN Need(r.outcome \in {"ok", "err"}, "C03", <<"lazy iterator under a reader schedule", r.schedule, e.fail_at, r.outcome, r.msg>>)
             \o Need(\A i \in 1..n : SameTags(r.rows[i], StreamTags(e.mref[i], 1)), "C11",
                     <<"lazy iterator handed out a row that is not the row of the text", r.schedule, e.fail_at>>)
+            \* (the stream machine does not count columns: a body with a row of more cells than the header has columns is no
+            \* sentence, libhaystack rejects it, and nothing is claimed about it beyond the rows handed out before)
             \o (IF e.fail_at = -1 /\ e.merr = "none" /\ NoEmptyLine(e.body) /\ r.outcome \in {"ok", "err"}
+                   /\ \A i \in 1..Len(e.mref) : Len(e.mref[i]) <= Len(StreamCols)
                 THEN Need(r.outcome = "ok" /\ Len(r.rows) = Len(e.mrows), "C11", <<"lazy iterator: rows differ from the stream machine's", r.schedule, r.outcome, Len(r.rows), Len(e.mrows)>>)
                      \o Need(\A i \in 1..n : i > Len(e.myield) \/ r.consumed[i] - e.hdr <= e.myield[i] + StreamSlack, "C11",
                              <<"lazy iterator consumed the stream beyond the first token after a row", r.schedule, r.consumed, e.myield>>)
